@@ -33,6 +33,11 @@ let handler = function
       (match to_opts o with
        | None -> L [I (-3)]
        | Some o -> of_outcome (fun (s, b) -> L [of_str s; of_bool b]) (run o (to_list to_str files) (to_str stdin)))
+  (* 2: the idempotence certificate of Properties/C20c.v for (options, stdin text) -> bool *)
+  | L [I 2; o; stdin] ->
+      (match to_opts o with
+       | None -> L [I (-3)]
+       | Some o -> of_bool (idempotence_certificate o (to_str stdin)))
   | _ -> failwith "unknown command"
 
 let () = serve handler
